@@ -262,3 +262,66 @@ impl Geometric { pub closed spec fn inner(self) -> Arithmetic { self.log_space }
 //@|         !all_positive_to(data@, data.len() as int) ==> r is Err && r->Err_0 is NonPositiveValue,
 //@endimpl
 
+// trait impls generated by impl_statistics_ops_for!(Arithmetic<F>) and impl_mean_ci_for!(Arithmetic<F>): each invocation is expanded at check time (rule M1)
+// and every delegating method verified under the contract of the inherent method of the same name, next to which it is emitted under a
+// different name (`self.append(x)` inside the trait impl resolves to the INHERENT method, before and after the renaming)
+//@impl src/mean.rs!impl_statistics_ops_for(Arithmetic<F>) impl<F: Float> StatisticsOps<F> for Arithmetic<F> => impl Arithmetic
+//@fn append as ops_append ret r vis pub
+//@contract_of Arithmetic::append
+//@fn sample_mean as ops_sample_mean ret r vis pub
+//@contract_of Arithmetic::sample_mean
+//@fn sample_sem as ops_sample_sem ret r vis pub
+//@contract_of Arithmetic::sample_sem
+//@fn ci_mean as ops_ci_mean ret r vis pub
+//@contract_of Arithmetic::ci_mean
+//@fn sample_count as ops_sample_count ret r vis pub
+//@contract_of Arithmetic::sample_count
+//@fn ci as ops_ci ret r vis pub
+//@contract_of Arithmetic::ci
+//@endimpl
+//@impl src/mean.rs!impl_mean_ci_for(Arithmetic<F>) impl<F: Float> MeanCI<F> for Arithmetic<F> => impl Arithmetic
+//@fn ci as meanci_ci ret r vis pub
+//@contract_of Arithmetic::ci
+//@endimpl
+// trait impls generated by impl_statistics_ops_for!(Harmonic<F>) and impl_mean_ci_for!(Harmonic<F>): each invocation is expanded at check time (rule M1)
+// and every delegating method verified under the contract of the inherent method of the same name, next to which it is emitted under a
+// different name (`self.append(x)` inside the trait impl resolves to the INHERENT method, before and after the renaming)
+//@impl src/mean.rs!impl_statistics_ops_for(Harmonic<F>) impl<F: Float> StatisticsOps<F> for Harmonic<F> => impl Harmonic
+//@fn append as ops_append ret r vis pub
+//@contract_of Harmonic::append
+//@fn sample_mean as ops_sample_mean ret r vis pub
+//@contract_of Harmonic::sample_mean
+//@fn sample_sem as ops_sample_sem ret r vis pub
+//@contract_of Harmonic::sample_sem
+//@fn ci_mean as ops_ci_mean ret r vis pub
+//@contract_of Harmonic::ci_mean
+//@fn sample_count as ops_sample_count ret r vis pub
+//@contract_of Harmonic::sample_count
+//@fn ci as ops_ci ret r vis pub
+//@contract_of Harmonic::ci
+//@endimpl
+//@impl src/mean.rs!impl_mean_ci_for(Harmonic<F>) impl<F: Float> MeanCI<F> for Harmonic<F> => impl Harmonic
+//@fn ci as meanci_ci ret r vis pub
+//@contract_of Harmonic::ci
+//@endimpl
+// trait impls generated by impl_statistics_ops_for!(Geometric<F>) and impl_mean_ci_for!(Geometric<F>): each invocation is expanded at check time (rule M1)
+// and every delegating method verified under the contract of the inherent method of the same name, next to which it is emitted under a
+// different name (`self.append(x)` inside the trait impl resolves to the INHERENT method, before and after the renaming)
+//@impl src/mean.rs!impl_statistics_ops_for(Geometric<F>) impl<F: Float> StatisticsOps<F> for Geometric<F> => impl Geometric
+//@fn append as ops_append ret r vis pub
+//@contract_of Geometric::append
+//@fn sample_mean as ops_sample_mean ret r vis pub
+//@contract_of Geometric::sample_mean
+//@fn sample_sem as ops_sample_sem ret r vis pub
+//@contract_of Geometric::sample_sem
+//@fn ci_mean as ops_ci_mean ret r vis pub
+//@contract_of Geometric::ci_mean
+//@fn sample_count as ops_sample_count ret r vis pub
+//@contract_of Geometric::sample_count
+//@fn ci as ops_ci ret r vis pub
+//@contract_of Geometric::ci
+//@endimpl
+//@impl src/mean.rs!impl_mean_ci_for(Geometric<F>) impl<F: Float> MeanCI<F> for Geometric<F> => impl Geometric
+//@fn ci as meanci_ci ret r vis pub
+//@contract_of Geometric::ci
+//@endimpl
